@@ -39,6 +39,7 @@ class Monitor {
         void on_read(bool ok, unsigned char byte);
         void on_write(unsigned char byte, bool accepted);
         void on_handler(int cmd, int kind, int fsm, const bytes &data, size_t size, size_t extra);
+        int matched_step = -2; // set by on_handler: script step of the matched expectation (-1 default step, -2 no match)
         void on_varcb(int cmd, int var, int vkind, size_t wsize);
         void on_handler_done(int fsm, const bytes &buffer_after); // read/test handlers: buffer content after the handler returned
         void on_service_begin();
